@@ -9,3 +9,11 @@ package api
 //@   props C16 C19
 //@   requires config.ChainParams != nil
 //@   dead returns 1
+
+// address-class validators of the handlers (C19: any string is answered with an address or an error; C16: the class
+// accepted is the one asked for)
+//@ func checkWitnessAddress
+//@   props C19 C16
+//@   requires net != nil
+//@   ensures[C16] result1 == nil ==> result0 != nil && (expectStaking ==> addrKind(result0) == 2) && (!expectStaking ==> addrKind(result0) == 1)
+//@   ensures result1 != nil ==> result0 == nil
